@@ -36,10 +36,10 @@ P = {
          "By-reference and ToPrimitive routes of every type run in thorough; quick rotates one big and one small type through them. ",
          "per-type complete queries; class partition for TryFrom"),
  "C10": ("Forwarding forms (value/reference x4, assign x2; + - * / %; three operand pairings) with the reference-reference impl as an uninterpreted function, all bit patterns; operator vs compound assignment (textual copies) with the shared kernels new_add/new_sub/new_mul/fast_two_sum/fma/renorm3 as UFs for all bit patterns, plus unstubbed per-cell comparisons; algebraic identities on the real code per cell; Iterator::sum == fold (UF); every Float/FloatCore/Signed/Inv/Pow/One/Zero/Bounded entry point against its inherent callee as a recording UF (argument passed unchanged, result returned unchanged); mul_add == self*a+b.",
-         "UF = 'for every pure function in place of the callee'; identities are cell-wise. ",
+         "UF = 'for every pure function in place of the callee'; identities are cell-wise. RECORDED FINDING (known_findings.json, printed as KNOWN-FINDING on every run): (-a)*b and -(a*b) differ in the sign of an exactly-zero low word, so the algebraic identities are compared modulo the sign of a zero word; any other difference is a violation. Multiplication cells with a zero low word run on the nostd configuration (CBMC fma gap). ",
          "uninterpreted-function (Ackermann) stubs; exponent cells for identities"),
  "C11": ("(1) libm::fma - the fma of the no_std configuration, real soft-float code - is shown correctly rounded against an independent integer oracle (exact 106-bit product + addend, round-to-nearest-even decided in 640-bit integers) per alignment cell d = be(z)-be(xy) in -110..110 with all significands and signs, far classes with symbolic exponent, and an unsplit special-operand query (NaN/inf/zero). (2) the crate's own no_std fma wrapper is reached through new_mul in the nostd configuration (exact against the integer product). (3) side condition regenerated each run: the MIR of the crate under both feature sets is identical except for the body of arithmetic::fma, which must be exactly one call of f64::mul_add resp. libm::fma.",
-         "That f64::mul_add of the std configuration (hardware / C library) is correctly rounded is assumed (the crate itself routes around MinGW); NaN payloads not compared; x,y anchored at [1,2) (four more anchor pairs in thorough); results in the normal range. The MIR diff is a compiler-IR comparison, not a solver query. ",
+         "RECORDED FINDING (known_findings.json, KNOWN-FINDING on every run): libm 0.2.16's generic software fma is NOT correctly rounded on the alignments d = 14..55 (counterexamples reproduced natively at d = 14, 15, 50..55; e.g. fma(-1.6794348586767305, 1.4885959923267365, 2^53)); those cells are excluded from the claim, d <= 13 and d >= 56 are decided correct. The quick tier runs the special-operand query, a far class, one alignment cell, the witness cell and the MIR condition; the remaining alignment cells (400-1400 s each) are thorough. That f64::mul_add of the std configuration (hardware / C library) is correctly rounded is assumed (the crate itself routes around MinGW); NaN payloads not compared; x,y anchored at [1,2) (four more anchor pairs in thorough); results in the normal range. The MIR diff is a compiler-IR comparison, not a solver query. ",
          "integer rounding oracle per alignment cell; MIR configuration diff"),
  "C12": ("Ground queries: the 19 compiled constants and the 19 FloatConst accessors equal (RN(c), RN(c-RN(c))) computed at check time by mpmath at 400 bits; MAX/MIN valid and bounding every valid x (one query over all valid x); MIN_POSITIVE, NAN != NAN, infinities invalid. to_degrees/to_radians: for every x exactly one multiplication by the mpmath-rounded 180/pi resp. pi/180 whose result is returned unchanged (recording stub).",
          "The 6u^2 accuracy of to_degrees/to_radians then follows on paper from C04's 5u^2 plus the constant's 2^-107 error; the direct query with the dense constant is attempted only. The constant comparison is constant folding (degenerate solver step) - its value is the independent mpmath oracle. ",
@@ -101,7 +101,7 @@ m = {
  }],
  "checks": checks,
  "not_applicable": [],
- "notes": "Every property is decided with the one technique (solver-based checking of the real code); clauses that the back end cannot reach (accuracy against true transcendental values, chained FP dividers, decimal printing) are named as OUT OF CLAIM in each level_note and in DESIGN.md section 5 rather than sampled by another technique. Genuine defects found on the pinned tree were repaired in /repo by separate 'fix:' commits and are listed in /verif/known_findings.json.",
+ "notes": "Every property is decided with the one technique (solver-based checking of the real code); clauses that the back end cannot reach (accuracy against true transcendental values, chained FP dividers, decimal printing) are named as OUT OF CLAIM in each level_note and in DESIGN.md section 5 rather than sampled by another technique. Seven genuine defects found on the pinned tree (exp panic, cbrt(0), log2(1), powi(i32::MIN), == asymmetry, From<i128> invalid pair, NumCast 2^53+1) were repaired in /repo by separate 'fix:' commits and are listed as fixed in /verif/known_findings.json; two findings are recorded there without repair (C10 sign of a zero low word; C11 libm's software fma). Quick commands enforce a 640 s wall budget; tier membership follows measured times (timings.json).",
 }
 json.dump(m, open("/verif/MANIFEST.json", "w"), indent=1)
 print("wrote MANIFEST.json with", len(checks), "checks")
